@@ -100,7 +100,9 @@ func genMicro(t *rapid.T, s tspace) (orb.Geometry, string) {
 		size = "1e-9..1e-6"
 	}
 	suffix := "/" + where + "/" + size
-	switch k := rapid.IntRange(0, 11).Draw(t, "mkind"); {
+	switch k := rapid.IntRange(0, 13).Draw(t, "mkind"); {
+	case k >= 12:
+		return genExactX(t, s, ay)
 	case k < 4:
 		ls := make(orb.LineString, rapid.IntRange(2, 6).Draw(t, "mnv"))
 		for i := range ls {
@@ -201,4 +203,129 @@ func genDense(t *rapid.T, s tspace, maxN int) (DenseLine, string) {
 		name = "step<1e-9"
 	}
 	return DenseLine{A: gen2P{gen.F(a[0]), gen.F(a[1])}, B: gen2P{gen.F(b[0]), gen.F(b[1])}, N: n}, "dense/" + where + "/" + name
+}
+
+// genExactX (L6): longitudes that project WITHOUT ROUNDING to a position 2^-j
+// tile away from a column edge (j up to 40: far inside the 1e-6 band that is
+// otherwise optional). The column of such a vertex is exact under every
+// evaluation order, so the model demands it exactly: points, multi-points,
+// exactly vertical segments and bounds.
+func genExactX(t *rapid.T, s tspace, ay float64) (orb.Geometry, string) {
+	k0 := rapid.IntRange(1, int(math.Max(1, s.n-1))).Draw(t, "xk0")
+	lonAt := func(label string) float64 {
+		// column edges within 4 tiles of each other (a bound between them stays small)
+		k := math.Min(s.n-1, float64(k0+rapid.IntRange(0, 4).Draw(t, label+"k")))
+		if s.z == 0 {
+			k = 0.5 // no interior column edge at zoom 0: stay off the world's edge
+		}
+		// x/n - 0.5 needs z + j bits, times 360 another 6: keep z + j + 6 <= 52
+		maxJ := 46 - int(s.z)
+		if maxJ > 40 {
+			maxJ = 40
+		}
+		minJ := 1
+		if s.z == 0 {
+			minJ = 2 // 0.5 +- 2^-1 would be the edge of the world (longitude +-180)
+		}
+		j := rapid.IntRange(minJ, maxJ).Draw(t, label+"j")
+		x := k + float64(rapid.SampledFrom([]int{-1, 1}).Draw(t, label+"s"))*math.Ldexp(1, -j)
+		return (x/s.n - 0.5) * 360
+	}
+	_, y := s.clamp(0, ay)
+	lat := func(dy float64) float64 {
+		_, yy := s.clamp(0, y+dy)
+		return unproject(0, yy, s.z)[1]
+	}
+	switch rapid.IntRange(0, 3).Draw(t, "xkind") {
+	case 0:
+		return orb.Point{lonAt("a"), lat(0.37)}, "micro/exactx-point"
+	case 1:
+		mp := make(orb.MultiPoint, rapid.IntRange(2, 4).Draw(t, "xn"))
+		for i := range mp {
+			mp[i] = orb.Point{lonAt("m"), lat(0.37 + 0.21*float64(i))}
+		}
+		return mp, "micro/exactx-multipoint"
+	case 2:
+		lon := lonAt("v")
+		return orb.LineString{{lon, lat(0.3)}, {lon, lat(0.3 + rapid.Float64Range(0.2, 2.6).Draw(t, "xlen"))}}, "micro/exactx-vertical-line"
+	}
+	a, b := lonAt("b0"), lonAt("b1")
+	la, lb := lat(0.3), lat(1.8)
+	return orb.Bound{Min: orb.Point{math.Min(a, b), math.Min(la, lb)}, Max: orb.Point{math.Max(a, b), math.Max(la, lb)}}, "micro/exactx-bound"
+}
+
+// genAlias (L5): members of one geometry that share memory with each other once
+// laid out with Layout "alias": the same point list twice, windows with equal
+// start and different lengths, overlapping windows, suffixes, the same ring in
+// two polygons, nested collections over the same list. The expectation is value
+// semantics: the model is built from an independent deep copy.
+func genAlias(t *rapid.T, s tspace) (orb.Geometry, string) {
+	nv := rapid.IntRange(4, 10).Draw(t, "anv")
+	span := math.Min(logUniform(t, 0.05, 6, "aspan"), 0.9*s.n)
+	cx, cy := s.centre(t, span/2)
+	P := make(orb.LineString, nv)
+	for i := range P {
+		x, y := s.clamp(cx+rapid.Float64Range(-0.5, 0.5).Draw(t, "ax")*span, cy+rapid.Float64Range(-0.5, 0.5).Draw(t, "ay")*span)
+		P[i] = unproject(x, y, s.z)
+	}
+	win := func(label string, minLen int) orb.LineString {
+		a := rapid.IntRange(0, nv-minLen).Draw(t, label+"a")
+		b := rapid.IntRange(a+minLen, nv).Draw(t, label+"b")
+		return P[a:b]
+	}
+	ring := func() orb.Ring {
+		unit := starUnit(t, rapid.IntRange(3, 7).Draw(t, "arnv"))
+		r := make(orb.Ring, 0, len(unit)+1)
+		for _, u := range unit {
+			x, y := s.clamp(cx+0.5*span*u[0], cy+0.5*span*u[1])
+			r = append(r, unproject(x, y, s.z))
+		}
+		return append(r, r[0])
+	}
+	switch rapid.IntRange(0, 8).Draw(t, "akind") {
+	case 7, 8:
+		// a polygon with a large hole, and the same outer ring again as a polygon of
+		// its own, which covers the hole: the second member is NOT redundant
+		big := math.Min(rapid.Float64Range(3, 12).Draw(t, "abig"), 0.8*s.n)
+		bx, by := s.centre(t, big/2)
+		unit := starUnit(t, rapid.IntRange(4, 8).Draw(t, "abnv"))
+		d := inradius(unit)
+		mk := func(f float64) orb.Ring {
+			r := make(orb.Ring, 0, len(unit)+1)
+			for _, u := range unit {
+				x, y := s.clamp(bx+0.5*big*f*u[0], by+0.5*big*f*u[1])
+				r = append(r, unproject(x, y, s.z))
+			}
+			return append(r, r[0])
+		}
+		outer := mk(1)
+		hole := make(orb.Ring, 0, 5)
+		for _, u := range []pt{{-1, -1}, {1, -1}, {1, 1}, {-1, 1}} {
+			x, y := s.clamp(bx+0.5*big*0.6*d*u[0], by+0.5*big*0.6*d*u[1])
+			hole = append(hole, unproject(x, y, s.z))
+		}
+		hole = append(hole, hole[0])
+		if rapid.Bool().Draw(t, "aorder") {
+			return orb.MultiPolygon{orb.Polygon{outer, hole}, orb.Polygon{outer}}, "alias/polygon with hole, then its outer ring alone"
+		}
+		return orb.Collection{orb.Polygon{outer, hole}, orb.MultiPolygon{orb.Polygon{hole}, orb.Polygon{outer}}, orb.Polygon{outer}}, "alias/collection: polygon with hole, hole as polygon, outer alone"
+	case 0:
+		return orb.MultiLineString{P, P}, "alias/same line twice"
+	case 1:
+		k := rapid.IntRange(2, nv-1).Draw(t, "ak")
+		return orb.MultiLineString{P, P[:k], P[nv-k:], win("w", 2)}, "alias/prefix, suffix and window of one line"
+	case 2:
+		return orb.MultiLineString{win("u", 2), win("v", 2), win("w", 2)}, "alias/overlapping windows"
+	case 3:
+		r := ring()
+		return orb.MultiPolygon{orb.Polygon{r}, orb.Polygon{r}}, "alias/same ring in two polygons"
+	case 4:
+		r := ring()
+		return orb.Polygon{r, r}, "alias/hole is the outer ring"
+	case 5:
+		k := rapid.IntRange(2, nv-1).Draw(t, "ak")
+		return orb.Collection{orb.Collection{orb.LineString(P)}, orb.Collection{orb.LineString(P[:k])}, orb.MultiPoint(P[:k]), P[0]}, "alias/nested collections over one list"
+	}
+	r := ring()
+	return orb.Collection{orb.LineString(P), orb.MultiPoint(P[1:]), r, orb.Polygon{r}, orb.LineString(r), orb.MultiLineString{P[:2], P[:3]}}, "alias/collection of views"
 }
